@@ -30,7 +30,7 @@ def run(ctx):
     ok, out = common.ensure_build("hooks", targets=("sympler",))
     ctx.oblige("hooked build of /repo", ok, out[-300:])
     gridcheck.translate(ctx)
-    common.lean_obligations(ctx, ["Props.C13", "Props.C01", "Props.C01Tables", "Props.CreateDist", "Sympler.DynDriver", "symdrv"], ["Props.C13", "Props.C01", "Props.C01Tables", "Props.CreateDist"],
+    common.lean_obligations(ctx, ["Props.C13", "Props.C01", "Props.C01Tables", "Props.CreateDist", "Props.PairSearchSites", "Sympler.DynDriver", "symdrv"], ["Props.C13", "Props.C01", "Props.C01Tables", "Props.CreateDist", "Props.PairSearchSites"],
                             THEOREMS + gridcheck.SITE_THEOREMS, MODULES + gridcheck.SITE_MODULES)
     n = 96 if not ctx.thorough else 2400
     workers = 12
